@@ -636,3 +636,101 @@ Lemma linux_kv_bounded : forall sep b,
 Proof.
   intros. unfold linux_kv, linux_lines. split; [apply kv_of_lines_count | apply split_on_count].
 Qed.
+
+(* ------------------------------------------------------------------ crashpad info *)
+Lemma dict_loop_rsat : forall e all data fuel off count keys,
+  blen data - off < 8 * (Z.of_nat fuel + 1) -> rsat (fun _ => True) (dict_loop fuel e all data off count keys).
+Proof.
+  intros e all data. induction fuel as [|fuel IH]; intros off count keys Hf; cbn [dict_loop].
+  - destruct (count <=? 0); [apply rsat_ok; exact I|].
+    destruct (can_read data off 8) eqn:E; [|apply rsat_err]. apply can_read_iff in E. lia.
+  - destruct (count <=? 0); [apply rsat_ok; exact I|].
+    destruct (can_read data off 8) eqn:E; [|apply rsat_err].
+    destruct (utf8_string e all _); [|apply rsat_err].
+    destruct (utf8_string e all _); [|apply rsat_err].
+    apply IH. lia.
+Qed.
+Lemma annot_loop_rsat : forall e all data fuel off count keys,
+  blen data - off < 12 * (Z.of_nat fuel + 1) -> rsat (fun _ => True) (annot_loop fuel e all data off count keys).
+Proof.
+  intros e all data. induction fuel as [|fuel IH]; intros off count keys Hf; cbn [annot_loop].
+  - destruct (count <=? 0); [apply rsat_ok; exact I|].
+    destruct (can_read data off 12) eqn:E; [|apply rsat_err]. apply can_read_iff in E. lia.
+  - destruct (count <=? 0); [apply rsat_ok; exact I|].
+    destruct (can_read data off 12) eqn:E; [|apply rsat_err].
+    destruct (utf8_string e all _); [|apply rsat_err].
+    destruct (_ && _)%bool; [apply rsat_err|].
+    apply IH. lia.
+Qed.
+Lemma read_simple_dictionary_rsat : forall e all size rva, rsat (fun _ => True) (read_simple_dictionary e all size rva).
+Proof.
+  intros. unfold read_simple_dictionary. destruct (location_slice all size rva) as [data|]; [|apply rsat_err].
+  destruct (blen data =? 0); [apply rsat_ok; exact I|].
+  destruct (get_u 4 e data 0); [|apply rsat_err].
+  apply dict_loop_rsat. unfold fuel_of, blen. lia.
+Qed.
+Lemma read_annotation_objects_rsat : forall e all size rva, rsat (fun _ => True) (read_annotation_objects e all size rva).
+Proof.
+  intros. unfold read_annotation_objects. destruct (location_slice all size rva) as [data|]; [|apply rsat_err].
+  destruct (blen data =? 0); [apply rsat_ok; exact I|].
+  destruct (get_u 4 e data 0); [|apply rsat_err].
+  apply annot_loop_rsat. unfold fuel_of, blen. lia.
+Qed.
+Lemma read_string_list_sat : forall e all size rva K, wf_bytes all -> ALLOC_FILE_C * blen all <= K ->
+  sat K (fun _ => True) (read_string_list e all size rva).
+Proof.
+  intros e all size rva K Hwf HK. unfold read_string_list.
+  apply sat_bind with (Q1 := fun data => wf_bytes data).
+  { apply sat_lift, rsat_of_opt. intros data Hd. eapply location_slice_wf; eassumption. }
+  intros data Hwd. destruct (blen data =? 0); [apply sat_ret; exact I|].
+  apply sat_bind with (Q1 := fun u => 0 <= u).
+  { apply sat_lift, rsat_of_opt. intros u Hu. apply get_u_some in Hu. destruct Hu as [_ ->]. apply val4; assumption. }
+  intros count Hc.
+  eapply sat_bind; [apply sat_lift, ensure_rsat|]. intros [n x] (H1 & H2 & H3). cbn [fst snd] in *. subst n x.
+  eapply sat_bind; [apply sat_alloc; unfold MSZ_STRING, ALLOC_FILE_C in *; lia|]. intros _ _.
+  eapply sat_bind.
+  { apply for_entries_sat with (Q := fun _ => True).
+    - intros off. unfold string_list_entry. apply sat_lift.
+      destruct (get_u 4 e data off); [|apply rsat_err]. destruct (utf8_string e all z); [apply rsat_ok; exact I | apply rsat_err].
+    - unfold fuel_of, blen in *. lia. }
+  intros; apply sat_ret; exact I.
+Qed.
+Lemma read_module_crashpad_sat : forall e all rva K, wf_bytes all -> ALLOC_FILE_C * blen all <= K ->
+  sat K (fun _ => True) (read_module_crashpad e all rva).
+Proof.
+  intros e all rva K Hwf HK. unfold read_module_crashpad.
+  destruct (can_read all rva FSZ_MODULE_CRASHPAD); [|apply sat_lift, rsat_err].
+  eapply sat_bind; [apply read_string_list_sat; assumption|]. intros a _.
+  eapply sat_bind; [apply sat_lift, read_simple_dictionary_rsat|]. intros b _.
+  eapply sat_bind; [apply sat_lift, read_annotation_objects_rsat|]. intros c _.
+  apply sat_ret; exact I.
+Qed.
+Lemma read_crashpad_module_links_sat : forall e all size rva K, wf_bytes all -> ALLOC_FILE_C * blen all <= K ->
+  sat K (fun _ => True) (read_crashpad_module_links e all size rva).
+Proof.
+  intros e all size rva K Hwf HK. unfold read_crashpad_module_links.
+  apply sat_bind with (Q1 := fun data => wf_bytes data).
+  { apply sat_lift, rsat_of_opt. intros data Hd. eapply location_slice_wf; eassumption. }
+  intros data Hwd. destruct (blen data =? 0); [apply sat_ret; exact I|].
+  apply sat_bind with (Q1 := fun u => 0 <= u).
+  { apply sat_lift, rsat_of_opt. intros u Hu. apply get_u_some in Hu. destruct Hu as [_ ->]. apply val4; assumption. }
+  intros count Hc.
+  eapply sat_bind; [apply sat_lift, ensure_rsat|]. intros [n x] (H1 & H2 & H3). cbn [fst snd] in *. subst n x.
+  eapply sat_bind; [apply sat_alloc; unfold MSZ_MODULE_CRASHPAD, FSZ_LINK, ALLOC_FILE_C in *; lia|]. intros _ _.
+  eapply sat_bind.
+  { apply for_entries_sat with (Q := fun _ => True).
+    - intros off. unfold link_entry. destruct (can_read data off FSZ_LINK); [|apply sat_lift, rsat_err].
+      apply read_module_crashpad_sat; assumption.
+    - unfold fuel_of, FSZ_LINK, blen in *. lia. }
+  intros; apply sat_ret; exact I.
+Qed.
+Lemma read_crashpad_info_sat : forall e all b K, wf_bytes all -> ALLOC_FILE_C * blen all <= K ->
+  sat K (fun _ => True) (read_crashpad_info e all b).
+Proof.
+  intros e all b K Hwf HK. unfold read_crashpad_info.
+  destruct (can_read b 0 FSZ_CRASHPAD); [|apply sat_lift, rsat_err].
+  destruct (_ =? 0); [apply sat_lift, rsat_err|].
+  eapply sat_bind; [apply sat_lift, read_simple_dictionary_rsat|]. intros s _.
+  eapply sat_bind; [apply read_crashpad_module_links_sat; assumption|]. intros ml _.
+  apply sat_ret; exact I.
+Qed.
